@@ -55,6 +55,10 @@ def judge(prog, clock, pieces, end=progmc.END):
     prev_clock = 0.0
     for i, (piece, o) in enumerate(zip(pieces, r["obs"])):
         e = ref.cmd(piece)
+        if allspec and not e["spec"] and e.get("trace_spec") and \
+                o["outcome"] == "ok" and o["trace"] != e["trace"]:
+            bad.append(("events-up-to-the-end-with-a-bound-beyond-it", i,
+                        piece, o["trace"], e["trace"]))
         if not e["spec"]:
             allspec = False
         # safety, always
